@@ -168,6 +168,28 @@ def shard(args):
                 F.check("C03", f"symbolic-numpy/integer-index/{i}{sid}", type(o) is type(objs[i]) and O.sysof(o) == O.sysof(objs[i]) and all(a is b or O.same(a, b) for a, b in zip(O.coords(o), O.coords(objs[i]))))
             except Exception as e:
                 F.check("C03", f"symbolic-numpy/integer-index/{i}{sid}", False, f"{type(e).__name__}: {str(e)[:120]}")
+        # ... also when the array was built from an explicit structured dtype whose fields are in a non-canonical order
+        if "unary" in parts:
+            names_ = O.names_of(system)
+            keyf = (lambda n: O.MOM.get(n, n)) if mom else (lambda n: n)
+            for oname, order in (("reversed", list(reversed(names_))), ("rotated", names_[1:] + names_[:1])):
+                try:
+                    raw = np.empty(shape, dtype=[(keyf(n), object) for n in order])
+                    for n in names_:
+                        raw[keyf(n)] = col(f"{n}1_", shape)
+                    vr = vector.array(raw)
+                    ok_sys = _sys(vr) == tuple(system) and isinstance(vr, vector.Momentum) == mom
+                    F.check("C03", f"symbolic-numpy/reordered-fields/{oname}/system-and-flavor{sid}", ok_sys, dict(got=_sys(vr)))
+                    for i in (0, n_el - 1):
+                        idx = tuple(int(j) for j in np.unravel_index(i, shape))
+                        o = vr[idx if len(idx) > 1 else idx[0]]
+                        F.check("C03", f"symbolic-numpy/reordered-fields/{oname}/integer-index/{i}{sid}",
+                                type(o) is type(objs[i]) and O.sysof(o) == O.sysof(objs[i]) and all(a is b or O.same(a, b) for a, b in zip(O.coords(o), O.coords(objs[i]))),
+                                dict(got=[repr(c)[:40] for c in O.coords(o)], expected=[repr(c)[:40] for c in O.coords(objs[i])]))
+                    for n in names_:
+                        F.check("C03", f"symbolic-numpy/reordered-fields/{oname}/column/{n}{sid}", all(O.same(a, b) for a, b in zip(flat(getattr(vr, n)), [getattr(o_, n) for o_ in objs])))
+                except Exception as e:
+                    F.check("C03", f"symbolic-numpy/reordered-fields/{oname}/defined{sid}", False, f"{type(e).__name__}: {str(e)[:140]}")
         # reductions (C17, for every value): Cartesian components of numpy.sum / .sum() are the sums of the elements' Cartesian components
         # as the object backend computes them, reduced in NumPy's order; axis / keepdims honoured, flavor kept, result Cartesian
         cart = ("x", "y", "z", "t")[:d]
